@@ -218,7 +218,12 @@ func (pc *partIDChecker) paramSafe(par *ssa.Parameter, depth int) (bool, string)
 // collectionValidated: a call H(..., m, ...) whose nil error dominates b, where H
 // checks every key of its parameter against PartitionCount and fails otherwise.
 func (pc *partIDChecker) collectionValidated(m ssa.Value, b *ssa.BasicBlock) (bool, string) {
+	return pc.collectionValidatedDepth(m, b, 0)
+}
+
+func (pc *partIDChecker) collectionValidatedDepth(m ssa.Value, b *ssa.BasicBlock, depth int) (bool, string) {
 	p := pc.r.P
+	pt := passThrough(p)
 	for _, c := range core.Conditions(b) {
 		v, nonNil, ok := isErrNilTest(c)
 		if !ok || nonNil {
@@ -229,6 +234,23 @@ func (pc *partIDChecker) collectionValidated(m ssa.Value, b *ssa.BasicBlock) (bo
 			h := p.ByObj[o]
 			if h == nil || h.SSA == nil {
 				continue
+			}
+			// the map is itself a result of the helper (decode-and-verify helper): every
+			// success return of the helper hands out a map it validated as a whole
+			if ex, isEx := m.(*ssa.Extract); isEx && ex.Tuple == ssa.Value(call) && depth == 0 {
+				all, any := true, false
+				for _, ret := range core.Returns(h.SSA) {
+					if !core.SuccessCapable(ret, pt) {
+						continue
+					}
+					any = true
+					if ok, _ := pc.collectionValidatedDepth(core.ResultValue(ret, ex.Index), ret.Block(), 1); !ok {
+						all = false
+					}
+				}
+				if any && all {
+					return true, "the map is returned by " + h.Name + ", which validated its keys as a whole on every success path"
+				}
 			}
 			for ai, a := range call.Call.Args {
 				if !sameCollection(a, m, call) || ai >= len(h.SSA.Params) {
